@@ -6,7 +6,7 @@
    Proofs/BackendsSpec.v (wf_layer, layer_items, layers_sem). R ranges over all commutative rings. *)
 From Coq Require Import List Bool Arith Ring ZArith.
 Require Import QG.Base.Res QG.Base.State QG.Base.Mat QG.Base.ZI QG.Model.Backends.
-Require Import QG.Proofs.BackendsSpec QG.Proofs.BackendsKron QG.Proofs.BackendsContract QG.Proofs.BackendsEff.
+Require Import QG.Proofs.BackendsSpec QG.Proofs.BackendsKron QG.Proofs.BackendsContract QG.Proofs.BackendsEff QG.Proofs.BackendsOnes.
 Import ListNotations.
 
 Section Statements.
@@ -61,10 +61,13 @@ Definition eff_spec_partial_stmt : Prop := forall n mn op ls psi,
   (4 <= n -> 2 * op <= n -> 2 * (n / op + 1) <= 26) ->
   exists out, eff R rI radd rmul n mn op ls psi = Ok out /\ state_eq n out (layers_sem ls psi).
 
-(* BackendForOnes, full strength: for every identity test that only accepts exact 2x2 identities *)
-Definition ones_spec_full : Prop := forall (is_id : entry R -> bool) n ls psi,
+(* BackendForOnes, full strength: for every identity test that only accepts exact 2x2 identities, and every layer list
+   whose layers hold at most 26 matrices (the code's assertion at backend.py:500; without it the statement is false,
+   see C01_ones_assertion_needed below) *)
+Definition ones_spec_stmt : Prop := forall (is_id : entry R -> bool) n ls psi,
   (forall e, is_id e = true -> exists A, e = En2 A /\ forall r c, A r c = id2 R rO rI r c) ->
   1 <= n -> ls <> [] -> Forall (wf_layer n) ls ->
+  Forall (fun l => length (filter (fun e => negb (isOne R e)) l) <= 26) ls ->
   exists out, ones R rI radd rmul is_id n ls psi = Ok out /\ state_eq n out (layers_sem ls psi).
 End Statements.
 
@@ -98,6 +101,11 @@ Theorem C01_eff_spec_partial : forall R rO rI radd rmul rsub ropp, ring_theory r
 Proof. intros R rO rI radd rmul rsub ropp Rth n mn op ls psi. exact (eff_spec R rO rI radd rmul rsub ropp Rth n mn op ls psi). Qed.
 Print Assumptions C01_eff_spec_partial.
 
+Theorem C01_ones_spec : forall R rO rI radd rmul rsub ropp, ring_theory rO rI radd rmul rsub ropp eq ->
+  ones_spec_stmt R rO rI radd rmul.
+Proof. intros R rO rI radd rmul rsub ropp Rth is_id n ls psi Hid. exact (ones_spec R rO rI radd rmul rsub ropp Rth is_id Hid n ls psi). Qed.
+Print Assumptions C01_ones_spec.
+
 (* chunking facts used by eff_spec, for every list: the chunks concatenate to the list, none is empty *)
 Theorem C01_chunk_list : forall (A : Type) (l : list A) mn opt, 1 <= opt -> 2 * opt <= length l ->
   exists cs, chunk_list l mn opt = Ok cs /\ concat cs = l /\ Forall (fun c => c <> []) cs /\ length cs <= length l / opt + 1.
@@ -124,3 +132,25 @@ Proof.
   - repeat constructor.
   - vm_compute. repeat split; reflexivity.
 Qed.
+
+(* the same layers through BackendForOnes, below (n = 4) and above (n = 7) the identity-skipping regime *)
+Definition exIsId := is_id_eqb zi0 zi1 zieqb.
+Definition exLayers7 : list (list (entry ZI)) :=
+  [[En2 exH; En4 exG; EnOne; En2 exI; EnOne; En4 exG; En2 exH]; [En2 exI; En2 exI; En2 exH; En4 exG; EnOne; En2 exI; En2 exI]].
+Example C01_example_ones :
+  Forall (wf_layer ZI 7) exLayers7 /\
+  (match ones ZI zi1 ziadd zimul exIsId 4 exLayers exPsi with
+   | Ok s => map s (all_bits 4) = map (layers_sem ZI ziadd zimul exLayers exPsi) (all_bits 4) | _ => False end) /\
+  (match ones ZI zi1 ziadd zimul exIsId 7 exLayers7 exPsi with
+   | Ok s => map s (all_bits 7) = map (layers_sem ZI ziadd zimul exLayers7 exPsi) (all_bits 7) | _ => False end).
+Proof.
+  split.
+  - repeat constructor.
+  - vm_compute. repeat split; reflexivity.
+Qed.
+
+(* the 26-matrix hypothesis of C01_ones_spec is necessary: 27 one-qubit entries hit the assertion *)
+Example C01_ones_assertion_needed :
+  Forall (wf_layer ZI 27) [repeat (En2 exH) 27] /\
+  is_ok (ones ZI zi1 ziadd zimul exIsId 27 [repeat (En2 exH) 27] exPsi) = false.
+Proof. split; [repeat constructor | vm_compute; reflexivity]. Qed.
